@@ -126,7 +126,7 @@ class XsdElement(XsdComponent, ParticleMixin,
     substitutes: set[str] | tuple[()] = ()
     identities: list[XsdIdentity]
     selected_by: set[XsdIdentity]
-    xsi_types: set[BaseXsdType]
+    xsi_types: set[Union[BaseXsdType, tuple[BaseXsdType, XsdIdentity]]]
     alternatives: Union[tuple[()], list['XsdAlternative']] = ()
     inheritable: Union[tuple[()], dict[str, XsdAttribute]] = ()
 
@@ -681,15 +681,19 @@ class XsdElement(XsdComponent, ParticleMixin,
                 if xsd_type.is_blocked(self):
                     reason = _("usage of %r is blocked") % xsd_type
                     context.validation_error(validation, self, reason, obj)
-                elif xsd_type not in self.xsi_types:
-                    self.xsi_types.add(xsd_type)
+                else:
+                    if xsd_type not in self.xsi_types:
+                        self.xsi_types.add(xsd_type)
 
                     # For complex contents augments permanently the XSD elements
-                    # that collect keys/keyrefs for enabled identities.
+                    # that collect keys/keyrefs for enabled identities: once for
+                    # each identity, which may be enabled only in a later run.
                     if xsd_type.has_complex_content():
                         xpath_element = XPathElement(self.name, xsd_type)
                         for counter in context.identities.values():
-                            if counter.enabled:
+                            key = (xsd_type, counter.identity)
+                            if counter.enabled and key not in self.xsi_types:
+                                self.xsi_types.add(key)
                                 try:
                                     counter.identity.update_elements(xpath_element)
                                 except TypeError as e:
